@@ -26,7 +26,7 @@ LEVEL_NOTE = "Asserted only where |vertical displacement| < h(start cell), as th
 RULE = ("case = direct (bathymetry seed, Dz, w, scheme, flow) or e2e (ROMS world, Dz, w). Non-trivial: some particle was reflected at the surface or at the bottom and some particle "
         "changed cell during the step; distinct by parameters.")
 MANDATORY = ["reflected_at_surface", "reflected_at_bottom", "changed_cell_same_step", "start_at_surface_or_bottom", "vertical_advection", "vertical_diffusion",
-             "both_off_untouched", "steps_checked", "e2e_records_checked", "large_displacement_fraction"]
+             "both_off_untouched", "steps_checked", "e2e_records_checked", "large_displacement_fraction", "e2e_subgrid_off_diagonal"]
 ASSUMPTIONS = ["|displacement| < h of the start cell (larger ones are outside the property)"]
 TIMEOUT = {"quick": 900, "thorough": 3400}
 
@@ -153,15 +153,18 @@ def _e2e(case, wd, V, sit, cnt):
              vert=dict(Vtransform=2, Vstretching=4, theta_s=3.0, theta_b=0.5, hc=10.0), scalars=dict(w=dict(kind="const", value=wv, w_levels=True)))
     H = __import__("vmon.world", fromlist=["make_h"]).make_h(w["h"], jmax, imax)
     npart = 40
-    X = rng.uniform(5, imax - 6, size=npart)
-    Y = rng.uniform(5, jmax - 6, size=npart)
+    X = rng.uniform(7, imax - 6, size=npart)
+    Y = rng.uniform(6, jmax - 6, size=npart)
     h0 = H[np.round(Y).astype(int), np.round(X).astype(int)]
     Z = rng.uniform(0, 1, size=npart) * h0
     Z[:5] = 0.0
     Z[5:10] = h0[5:10]
     rows = [[start, float(X[k]), float(Y[k]), float(Z[k])] for k in range(npart)]
-    run = dict(start=start, stop=str(tadd(start, nsteps * dt)), dt=dt, advection="EF", vertdiff=Dz, release=dict(columns=["release_time", "X", "Y", "Z"], rows=rows, header=True),
+    sub = [None, [2, imax - 1, 4, jmax - 1], [5, imax - 1, 1, jmax - 2]][case["idx"] % 3]
+    run = dict(start=start, stop=str(tadd(start, nsteps * dt)), dt=dt, advection="EF", vertdiff=Dz, subgrid=sub, release=dict(columns=["release_time", "X", "Y", "Z"], rows=rows, header=True),
                output=dict(period=dt))
+    if sub:
+        _bump(sit, "e2e_subgrid_off_diagonal")
     if mode in (1, 2):
         run["vertical_advection"] = True
         run["extra_forcing"] = ["w"]
